@@ -102,8 +102,40 @@ func AllNonCanonicalPointStrings() [][]byte {
 
 // GenPointBytes draws a 32-byte string from classes that matter to decoders.
 func GenPointBytes(t *rapid.T, label string) ([]byte, string) {
-	k := rapid.IntRange(0, 12).Draw(t, label+"_bk")
+	k := rapid.IntRange(0, 13).Draw(t, label+"_bk")
 	switch k {
+	case 13: // keeps the first i and the last j bytes of a SPECIAL string (a non-canonical encoding, a torsion point, p)
+		// and replaces what lies between: a comparison with the special string that looks at its ends only (or skips
+		// the middle) takes these for the special string itself
+		var specials [][]byte
+		specials = append(specials, AllNonCanonicalPointStrings()...)
+		for _, tp := range ref.Torsion8() {
+			specials = append(specials, tp.Encode())
+		}
+		specials = append(specials, le32(ref.P))
+		b := append([]byte(nil), specials[rapid.IntRange(0, len(specials)-1).Draw(t, label+"_sp")]...)
+		i := rapid.IntRange(0, 4).Draw(t, label+"_pre")
+		j := rapid.IntRange(0, 4).Draw(t, label+"_suf")
+		if i+j == 0 {
+			i = 1
+		}
+		fill := rapid.IntRange(0, 2).Draw(t, label+"_fill")
+		for x := i; x < 32-j; x++ {
+			switch fill {
+			case 0:
+				b[x] = rapid.Byte().Draw(t, label+"_mid")
+			case 1:
+				b[x] ^= 0xff
+			default:
+				b[x] = b[(x+1)%32] ^ byte(x)
+			}
+		}
+		if rapid.Bool().Draw(t, label+"_oncurve") { // walk a middle byte until y is on the curve (decoders go on)
+			for n := 0; n < 64 && !ref.Decode(b).OK; n++ {
+				b[15]++
+			}
+		}
+		return b, "ends-of-special"
 	case 12: // agrees with p above one byte position, differs there (byte-wise canonicity tests), either sign bit;
 		// half of the time walked to the nearest y that is on the curve so that the decoders get past the square root
 		b := BytewiseProbe(t, label, ref.P)
